@@ -29,7 +29,7 @@ func init() {
 		ID:    "C20",
 		Level: "fault_enumeration",
 		Rule: "base transactions: memory-buffered / spilled / spilled+ProcessPartial request body, multipart with 1 and 2 files under SecUploadKeepFiles Off / On / RelevantOnly (with and without a logged match), malformed multipart and JSON bodies, response body, interruption in phase 1-4, audit record through the real serial and concurrent file writers; " +
-			"for each, every file-system operation the run performs (create, open, write, read-at, close, remove, mkdir, writefile — intercepted by the os shim) fails in turn (quick: every single fault, error-before and short-write; thorough: every pair), and independently the run is abandoned after each of its API calls and closed; private temp / upload / audit directories per execution. " +
+			"for each, every file-system operation the run performs (create, open, write, read-at, close, remove, mkdir, writefile — intercepted by the os shim) fails in turn (quick: every single fault, error-before and short-write; thorough: every combination of up to three faults), and independently the run is abandoned after each of its API calls and closed; private temp / upload / audit directories per execution. " +
 			"Oracle: no panic; every injected failure surfaces (returned error, REQBODY_ERROR / MULTIPART_STRICT_ERROR, or an Error-level debug-log record); after Close the temp and upload directories are empty unless retention applies or the failed operation was that file's own removal; the open-descriptor count is back to its baseline; a probe transaction on the recycled object equals the fresh outcome. " +
 			"distinct_nontrivial = distinct (base transaction, fault position and mode | abandonment point) actually reached",
 		Assumptions: []string{
@@ -435,7 +435,7 @@ func run(c *runner.Ctx) {
 	d := mkdirs(c.Work)
 	bound := 1
 	if c.Thorough() {
-		bound = 2
+		bound = 3
 	}
 	// reference probe on a brand-new WAF/object
 	var ref string
